@@ -1,5 +1,6 @@
-/* libdriver <libpacketdsl.so> <input-file>: calls FormatPacketDslExport on the file's bytes
-   (as a C string) and writes the returned C string to stdout. Exit 0 when the call returned. */
+/* libdriver <libpacketdsl.so> <input-file>...: loads the library once, calls
+   FormatPacketDslExport on each file's bytes (as a C string) in order, and writes every
+   returned C string to stdout as "<decimal length>\n<bytes>\n". Exit 0 when all calls returned. */
 #include <dlfcn.h>
 #include <stdio.h>
 #include <stdlib.h>
@@ -11,19 +12,23 @@ int main(int argc, char **argv) {
     if (!h) { fprintf(stderr, "dlopen: %s\n", dlerror()); return 3; }
     char *(*fn)(char *) = (char *(*)(char *))dlsym(h, "FormatPacketDslExport");
     if (!fn) { fprintf(stderr, "dlsym failed\n"); return 3; }
-    FILE *f = fopen(argv[2], "rb");
-    if (!f) { fprintf(stderr, "open failed\n"); return 3; }
-    fseek(f, 0, SEEK_END);
-    long n = ftell(f);
-    fseek(f, 0, SEEK_SET);
-    char *buf = malloc(n + 1);
-    if (fread(buf, 1, n, f) != (size_t)n) { fprintf(stderr, "read failed\n"); return 3; }
-    buf[n] = 0;
-    fclose(f);
-    char *out = fn(buf);
-    if (!out) { fprintf(stderr, "NULL result\n"); return 4; }
-    fwrite(out, 1, strlen(out), stdout);
-    free(out);
-    free(buf);
+    for (int a = 2; a < argc; a++) {
+        FILE *f = fopen(argv[a], "rb");
+        if (!f) { fprintf(stderr, "open failed\n"); return 3; }
+        fseek(f, 0, SEEK_END);
+        long n = ftell(f);
+        fseek(f, 0, SEEK_SET);
+        char *buf = malloc(n + 1);
+        if (fread(buf, 1, n, f) != (size_t)n) { fprintf(stderr, "read failed\n"); return 3; }
+        buf[n] = 0;
+        fclose(f);
+        char *out = fn(buf);
+        if (!out) { fprintf(stderr, "NULL result\n"); return 4; }
+        printf("%zu\n", strlen(out));
+        fwrite(out, 1, strlen(out), stdout);
+        printf("\n");
+        free(out);
+        free(buf);
+    }
     return 0;
 }
